@@ -46,6 +46,14 @@ HErr(cls, msg, site, rt) == [h |-> "err", cls |-> cls, msg |-> msg, site |-> sit
                                   \* site: node of the last throw; rt: raised by the machine itself; infn: thrown inside a function
 ErrCtors == {"Error", "TypeError", "ReferenceError", "RangeError", "SyntaxError"}
 ArrMethods == {"forEach", "map", "push", "sort"}
+\* (C07, round 4) more built-ins that run script code.  As for sort, only the part of their behaviour up to the FIRST call of the
+\* script function is inside the fragment (frame "natsort": a callback that returns is "unsupported"): the receiver / arguments
+\* decide whether and with which arguments the function is called first; a throw in it abandons the built-in.
+C07NbArr == {"filter", "some", "every", "find", "findIndex", "reduce"}
+C07NbStr == {"replace", "replaceAll"}
+\* position (from 0) of the first occurrence of t in s, -1 if there is none
+C07StrFind(s, t) == LET S == {j \in 0..(Len(s) - Len(t)) : SubSeq(s, j + 1, j + Len(t)) = t}
+                    IN IF S = {} THEN 0 - 1 ELSE CHOOSE j \in S : \A q \in S : j <= q
 BuiltinNames == ErrCtors \cup {"log", "undefined"}
 Builtin(x) == IF x = "undefined" THEN VUndef ELSE VNat(x)
 
@@ -94,11 +102,12 @@ IdxOf(v) == IF v.t = "int" THEN v.i ELSE IF v.t = "str" /\ IsIndexStr(v.s) THEN 
 ThrowMark == [t |-> "throwmark"]                               \* GetProp on undefined / null
 GetProp(heap, ov, pv) ==
   IF ov.t \in {"undef", "null"} THEN ThrowMark
-  ELSE IF ov.t = "str" THEN (IF pv = VStr("length") THEN VInt(Len(ov.s)) ELSE Unsup)
+  ELSE IF ov.t = "str" THEN (IF pv = VStr("length") THEN VInt(Len(ov.s))
+                             ELSE IF pv.t = "str" /\ pv.s \in C07NbStr THEN VNat(pv.s) ELSE Unsup)
   ELSE IF ov.t # "ref" THEN Unsup
   ELSE LET ho == heap[ov.r] IN
     CASE ho.h = "arr" -> IF pv = VStr("length") THEN VInt(Len(ho.es))
-                         ELSE IF pv.t = "str" /\ pv.s \in ArrMethods THEN VNat(pv.s)
+                         ELSE IF pv.t = "str" /\ pv.s \in ArrMethods \cup C07NbArr THEN VNat(pv.s)
                          ELSE LET ix == IdxOf(pv) IN
                               IF ix >= 0 /\ ix < Len(ho.es) THEN ho.es[ix + 1]
                               ELSE IF ix >= Len(ho.es) THEN VUndef ELSE Unsup
@@ -267,6 +276,17 @@ DoCall(st, fv, thisv, args, nid) ==
               THEN NatIter(Push(st, [f |-> "nat", n |-> fv.n, arr |-> thisv.r, fn |-> Arg(args, 1), idx |-> 0,
                                      len |-> Len(st.heap[thisv.r].es), acc |-> <<>>, nid |-> nid]))
               ELSE Ret(st, Unsup)
+         [] fv.n \in C07NbArr ->                            \* first call: (element 0, 0, array); reduce with an initial value: (initial, element 0, 0, array)
+              IF thisv.t = "ref" /\ st.heap[thisv.r].h = "arr" /\ Len(st.heap[thisv.r].es) >= 1 /\ (fv.n = "reduce" => Len(args) >= 2)
+              THEN LET e1 == st.heap[thisv.r].es[1] IN
+                   DoCall(Push(st, [f |-> "natsort"]), Arg(args, 1), VUndef,
+                          IF fv.n = "reduce" THEN <<args[2], e1, VInt(0), thisv>> ELSE <<e1, VInt(0), thisv>>, nid)
+              ELSE Ret(st, Unsup)
+         [] fv.n \in C07NbStr ->                            \* string search value that occurs, function replacer: (match, position, string)
+              LET sv == Arg(args, 1)  fn == Arg(args, 2) IN
+              IF thisv.t = "str" /\ sv.t = "str" /\ fn.t = "ref" /\ st.heap[fn.r].h = "fun" /\ C07StrFind(thisv.s, sv.s) >= 0
+              THEN DoCall(Push(st, [f |-> "natsort"]), fn, VUndef, <<sv, VInt(C07StrFind(thisv.s, sv.s)), thisv>>, nid)
+              ELSE Ret(st, Unsup)
          [] OTHER -> Ret(st, Unsup)
 NatIter(st) ==
   LET fr == Top(st)  es == st.heap[fr.arr].es IN
@@ -274,6 +294,19 @@ NatIter(st) ==
   THEN DoCall(Repl(st, [fr EXCEPT !.idx = @ + 1]), fr.fn, VUndef, <<es[fr.idx + 1], VInt(fr.idx), VRef(fr.arr)>>, fr.nid)
   ELSE IF fr.n = "forEach" THEN Ret(Pop(st), VUndef)
   ELSE Ret(Alloc(Pop(st), <<HArr(fr.acc)>>), VRef(Len(st.heap) + 1))
+
+\* (C07, round 4) the function that ToPrimitive (no hint) calls first on an ordinary object: its own valueOf if it has one (a
+\* function), otherwise its own toString; VUndef when the object is not of that kind (then `+` stays outside the fragment)
+C07ConvFn(heap, v) ==
+  IF v.t = "ref" /\ heap[v.r].h = "obj"
+  THEN LET ho == heap[v.r]
+           own(key) == {j \in 1..Len(ho.ks) : ho.ks[j] = key}
+           pick(key) == ho.vs[CHOOSE j \in own(key) : TRUE]
+           isfn(w) == w.t = "ref" /\ heap[w.r].h = "fun"
+       IN IF \E j \in 1..Len(ho.kd) : ho.kd[j] # "init" THEN VUndef
+          ELSE IF own("valueOf") # {} THEN (IF isfn(pick("valueOf")) THEN pick("valueOf") ELSE VUndef)
+          ELSE IF own("toString") # {} /\ isfn(pick("toString")) THEN pick("toString") ELSE VUndef
+  ELSE VUndef
 
 RetOrThrow(st, ov, r, nid) ==
   IF r.t = "throwmark" THEN ThrowErr(st, "TypeError", nid)
@@ -449,6 +482,10 @@ StepV(st, v) ==
                        THEN Ret(Fire(s0, "Dev_ErrorHierarchy"), VBool(FALSE))
                        ELSE Ret(s0, VBool(same \/ (iserr /\ v.n = "Error")))
                ELSE Ret(s0, Unsup))
+         \* (C07, round 4) `+` with an object operand: the left operand is converted first; the conversion function runs as a call from
+         \* the operator (only a conversion that throws is inside the fragment)
+         ELSE IF fr.o = "+" /\ C07ConvFn(s0.heap, fr.lv).t = "ref" THEN DoCall(Push(s0, [f |-> "natsort"]), C07ConvFn(s0.heap, fr.lv), fr.lv, <<>>, 0)
+         ELSE IF fr.o = "+" /\ IsPrim(fr.lv) /\ C07ConvFn(s0.heap, v).t = "ref" THEN DoCall(Push(s0, [f |-> "natsort"]), C07ConvFn(s0.heap, v), v, <<>>, 0)
          ELSE Ret(s0, BinOp(fr.o, fr.lv, v))
     [] fr.f = "un" -> (CASE fr.o = "!" -> Ret(s0, VBool(~Truthy(v)))
                          [] fr.o = "typeof" -> Ret(s0, VStr(TypeOfV(s0.heap, v)))
